@@ -444,7 +444,7 @@ var c11Names = []c11NameSet{
 // C11 part (i): the if-feature evaluator. Parts (ii)/(iii) are in c11_guard.go / c11_deviate.go.
 func C11(ctx *core.Ctx) error {
 	ctx.Imports = "Feature.IfFeature Feature.Guard Feature.Deviate Check.C11Check"
-	ctx.ShardMax = 120000
+	ctx.ShardMax = 100000
 	ctx.Rule = "evaluator: every token sequence of length 0..L over {a,b,c,not,and,or,(,)} (L=5 quick, 6 thorough) and every grammatical sequence up to G tokens (G=7 quick, 9 thorough), each under all 8 assignments of a,b,c, through meta.IfFeature.Evaluate; random written expressions (depth<=6, random separators blank/tab/line break, redundant parentheses, either nesting) under all assignments of their 3-4 features; malformed texts (token deletion/insertion/duplication, byte soup, keywords touching parentheses). distinct = by SHA-256 of the case term; non-trivial = table with >1 sequence, or a single text"
 	r := gen.New(ctx.Seed)
 	idx := 0
@@ -452,6 +452,21 @@ func C11(ctx *core.Ctx) error {
 	maxAll := ctx.Scale(5, 6)
 	for n := 0; n <= maxAll; n++ {
 		n := n
+		if n >= 5 {
+			// big table: one slice per first token (classified in parallel)
+			sub := c11AllSeqs(n - 1)
+			for f, t := range c11Alphabet {
+				f := f
+				seqs := make([][]string, len(sub))
+				for i, s := range sub {
+					seqs[i] = append([]string{t}, s...)
+				}
+				c11SeqTable(ctx, idx, fmt.Sprintf("all sequences of %d tokens starting with %q", n, t), seqs,
+					func(packed string) string { return emit.App("CTokAllFrom", emit.Nat(f), emit.Nat(n-1), packed) })
+				idx++
+			}
+			continue
+		}
 		c11SeqTable(ctx, idx, fmt.Sprintf("all sequences of %d tokens", n), c11AllSeqs(n),
 			func(packed string) string { return emit.App("CTokAll", emit.Nat(n), packed) })
 		idx++
